@@ -15,6 +15,7 @@ CONSTANTS
   MaxSt = 5
   MaxLd = 3
   MaxLen = 6
+  Template <- NoTemplate
   Q = {}
   Clauses <- AllClauses
   Probe = FALSE
